@@ -3,6 +3,7 @@
 #include <cstring>
 #include <sstream>
 #include <string>
+#include <vector>
 
 #include <bxdecay0/dbd_gA.h>
 #include <bxdecay0/event.h>
@@ -52,6 +53,43 @@ extern "C" int LLVMFuzzerTestOneInput(const uint8_t * data, size_t size)
         roomy = lo >= 0 && hi > lo && es >= 2 * lo + (hi - lo) / (n - 1);
         // every sampled pair has e1 + e2 >= 2 E_min: a table with E_sum(max) <= 2 E_min allows no pair at all (the sampler would never return)
         if (es <= 2 * lo) FZ_VIOLATION("the loader accepted a table in which no pair of energies is allowed (maximum energy sum <= 2 E_min)");
+      }
+    }
+    if (!pdf) {
+      // the loader's own predicate for the c.d.f. file it has just accepted, evaluated on the rows as the public decoder gives them
+      // (the file is walked the way the loader walks it): every row non-decreasing, within [0,1], ending at 1
+      std::istringstream in(std::string((const char *)data, size));
+      int seen = 0;
+      while (in) {
+        std::string raw;
+        std::getline(in, raw);
+        if (raw.empty()) continue;
+        {
+          std::string w;
+          std::istringstream ins(raw);
+          ins >> w;
+          if (w[0] == '#') continue;
+        }
+        if (seen++ >= 2) {
+          std::vector<double> row;
+          bool decoded = true;
+          try {
+            bxdecay0::load_optimized_cdf_array(raw, row);
+          } catch (std::exception &) {
+            decoded = false;
+          }
+          if (decoded && !row.empty()) {
+            double prev = 0.0;
+            bool ok = row.back() == 1.0;
+            for (double c : row) {
+              if (!(c >= prev && c <= 1.0)) ok = false;
+              prev = c;
+            }
+            if (!ok) FZ_VIOLATION("the loader accepted a c.d.f. table with a row that is not a cumulative distribution (values outside [0,1], decreasing, or not ending at 1)");
+          }
+        }
+        in >> std::ws;
+        if (in.eof()) break;
       }
     }
     if (pdf && roomy) {
